@@ -1338,6 +1338,18 @@ func (s *BlockAttrsSpec) decode(content *hcl.BodyContent, blockLabels []blockLab
 		vals[name] = attrVal
 	}
 
+	if !cty.CanMapVal(vals) {
+		// With a dynamic element type the attributes can have different
+		// types, which cty.MapVal rejects by panicking.
+		diags = append(diags, &hcl.Diagnostic{
+			Severity: hcl.DiagError,
+			Summary:  "Inconsistent attribute value types",
+			Detail:   fmt.Sprintf("All arguments of a %q block must have the same type.", s.TypeName),
+			Subject:  &block.DefRange,
+		})
+		return cty.UnknownVal(cty.Map(s.ElementType)), diags
+	}
+
 	return prepareBodyVal(cty.MapVal(vals), block.Body), diags
 }
 
